@@ -44,15 +44,22 @@ def handle (toks : List String) : Option String :=
     match decStr v with
     | some s => some (bit (Safe s) ++ " " ++ bit (firstOK s) ++ " " ++ bit (lastOK s))
     | none => some "BAD-REQUEST"
-  | ["c09", vars, vals, _wrapper] =>
+  | ["c09", vars, vals, wrapper] =>
     match decVars vars, decList vals with
     | some vs, some vl =>
       let env := vs ++ argVars vl
       let dom := vl.all Safe && positionOK vl
-      let wrapped :=
-        match roundTripFull env (capName :: vl) with
-        | some (_, some c, as) => if c = capName then "call:" ++ encList as else "nocall"
-        | _ => "nocall"
+      let once (name : Str) (l : List Str) : Option (List Str) :=
+        match roundTripFull env (name :: l) with
+        | some (_, some c, as) => if c = name then some as else none
+        | _ => none
+      -- `alias2`: an alias of an alias = two passes through the rebuilt line; every other
+      -- wrapper = one pass (`aliasjump` wraps the jumping twin of `cap`)
+      let arrived :=
+        if wrapper == "alias2" then (once "mid".toList vl).bind (once capName)
+        else if wrapper == "aliasjump" then once "capjump".toList vl
+        else once capName vl
+      let wrapped := match arrived with | some as => "call:" ++ encList as | none => "nocall"
       some ((if dom then "D" else "X") ++ " " ++ wrapped ++ " call:" ++ encList vl)
     | _, _ => some "BAD-REQUEST"
   | _ => none
